@@ -8,7 +8,8 @@
 EXTENDS Integers, Sequences, FiniteSets, TLC, TLCExt, Json
 
 CONSTANTS N, Prog,     \* Prog[t] = sequence of [op |-> "once", a |-> kind 0..3, b |-> which once 0/1]
-          MaxNow
+          MaxNow,
+          Nest       \* 0, or 1 + the kind of nsync_run_once call that the function of once 0 makes on once 1 (a nested initialisation)
 
 Threads == 1..N
 Onces == 0..1
@@ -41,6 +42,7 @@ Onces == 0..1
    ro_6_l:   if (~blocking) { goto f0; };
    ro_6_ul:  lockh := 0;                                                      \* once.c:74 nsync_mu_unlock
    f0:       runs[k] := runs[k] + 1;                                          \* the once function starts ...
+   fn_l:     if (Nest > 0 /\ k = 0) { call run_once(Nest - 1, 1); };           \* ... may itself need another once (sharing the once_sync slot) ...
    f1:       fdone[k] := TRUE;                                                \* ... and completes
    ro_7_l:   if (~blocking) { goto ro_9_st; };
    ro_7_lk:  await lockh = 0; lockh := self;                                  \* once.c:82
@@ -178,9 +180,27 @@ ro_6_ul(self) == /\ pc[self] = "ro_6_ul"
 
 f0(self) == /\ pc[self] = "f0"
             /\ runs' = [runs EXCEPT ![k[self]] = runs[k[self]] + 1]
-            /\ pc' = [pc EXCEPT ![self] = "f1"]
+            /\ pc' = [pc EXCEPT ![self] = "fn_l"]
             /\ UNCHANGED << ow, lockh, cvw, cvs, cvx, ip, fdone, early, stack, 
                             kind, k, o, blocking >>
+
+fn_l(self) == /\ pc[self] = "fn_l"
+              /\ IF Nest > 0 /\ k[self] = 0
+                    THEN /\ /\ k' = [k EXCEPT ![self] = 1]
+                            /\ kind' = [kind EXCEPT ![self] = Nest - 1]
+                            /\ stack' = [stack EXCEPT ![self] = << [ procedure |->  "run_once",
+                                                                     pc        |->  "f1",
+                                                                     o         |->  o[self],
+                                                                     blocking  |->  blocking[self],
+                                                                     kind      |->  kind[self],
+                                                                     k         |->  k[self] ] >>
+                                                                 \o stack[self]]
+                         /\ o' = [o EXCEPT ![self] = 0]
+                         /\ blocking' = [blocking EXCEPT ![self] = FALSE]
+                         /\ pc' = [pc EXCEPT ![self] = "ro_1_ld"]
+                    ELSE /\ pc' = [pc EXCEPT ![self] = "f1"]
+                         /\ UNCHANGED << stack, kind, k, o, blocking >>
+              /\ UNCHANGED << ow, lockh, cvw, cvs, cvx, ip, runs, fdone, early >>
 
 f1(self) == /\ pc[self] = "f1"
             /\ fdone' = [fdone EXCEPT ![k[self]] = TRUE]
@@ -278,7 +298,7 @@ ro_13_ul(self) == /\ pc[self] = "ro_13_ul"
 run_once(self) == ro_1_ld(self) \/ ro_2_ld(self) \/ ro_2_l(self)
                      \/ ro_3_lk(self) \/ ro_4_l(self) \/ ro_4_cas(self)
                      \/ ro_5_ld(self) \/ ro_6_l(self) \/ ro_6_ul(self)
-                     \/ f0(self) \/ f1(self) \/ ro_7_l(self)
+                     \/ f0(self) \/ fn_l(self) \/ f1(self) \/ ro_7_l(self)
                      \/ ro_7_lk(self) \/ ro_8_r(self) \/ ro_9_st(self)
                      \/ ro_10_ld(self) \/ ro_10_l(self) \/ ro_11_r(self)
                      \/ ro_12_lk(self) \/ ro_d(self) \/ ro_13_l(self)
@@ -319,7 +339,7 @@ Termination == <>(\A self \in ProcSet: pc[self] = "Done")
 
 \* END TRANSLATION
 
-LocalLabels == {"ro_10_l", "ro_13_l", "ro_2_l", "ro_4_l", "ro_6_l", "ro_7_l"}
+LocalLabels == {"fn_l", "ro_10_l", "ro_13_l", "ro_2_l", "ro_4_l", "ro_6_l", "ro_7_l"}
 Step(self) == run_once(self) \/ thr(self)
 \* the clock passes the short deadlines (10-50 ms) of everybody currently waiting on once_cv
 TickUseful == \E u \in Threads : pc[u] = "ro_12_lk" /\ ~cvs[u] /\ ~cvx[u]
